@@ -299,6 +299,7 @@ class Composition(Loggable):
                     chain[comp] = (local_time - dep.time, delayed)
                     return self._update_recursive(c, chain)
             else:
+                chain[comp] = (None, delayed)
                 updated = self._update_recursive(c, chain, local_time)
                 if updated is not None:
                     return updated
@@ -312,6 +313,9 @@ class Composition(Loggable):
                 )
             return comp
 
+        # a component without time that needs no upstream update is done:
+        # it is no longer part of the dependency chain
+        del chain[comp]
         return None
 
     def _collect_adapters(self):
